@@ -62,6 +62,13 @@ PROPS = {
                            runner="keeper.VerifRtRun", runner_import='"github.com/initia-labs/OPinit/x/opchild/keeper"')],
                 bounds=["validator stores: at most 2 (quick) / 3 (thorough) entries in the pre-state", "one plan, at an arbitrary height relative to the block height; plan operator and key each new or already stored; executor list of 0..2"],
                 outside=["several plans at one height (the plan map is keyed by height)"], assumptions=COMMON_ASSUME + ["consensus address is an injective function of the public key"]),
+    "C20": dict(runs=[
+                    dict(pkg="./x/opchild/ante,./x/opchild/keeper", overlays=[("./x/opchild/ante", "harness/ante"), ("./x/opchild/keeper", "harness/opchild")],
+                         harness="^Harness_C20_", pkgname="ante", native=["rt.go.tmpl", "ante_native.go.tmpl", "ante_extra.go.tmpl"],
+                         extra_native=[("./x/opchild/keeper", "keeper", ["rt.go.tmpl", "opchild_keeper.go.tmpl"])]),
+                    dict(pkg="./x/opchild/lanes", overlay="harness/lanes", harness="^Harness_C20_", pkgname="lanes", native=["rt.go.tmpl", "ante_native.go.tmpl", "lanes_extra.go.tmpl"])],
+                bounds=["fee floor: universe of 2 (quick) / 3 (thorough) ordered denoms, node/chain/fee vectors any sub-set, prices and amounts < 2^128, gas full 64 bit", "system lane: 0..3 messages, exec nesting depth 2, inner lists 0..2", "free lane: whitelist 0..2 valid addresses, granter optional", "redundant relay: 0..2 messages, one configured executor"],
+                outside=["more denoms / messages than the bounds"], assumptions=COMMON_ASSUME + ["price vectors are valid DecCoins (sorted, unique, positive) as config parsing and Params.Validate guarantee", "whitelist entries are valid addresses (Params.Validate)"]),
     "C17": dict(runs=[dict(pkg="./x/ophost/types", overlay="harness/C17", pkgname="types", harness="^Harness_C17_", native=["rt.go.tmpl", "types_native.go.tmpl"])],
                 bounds=["proof depth 0..2 (quick) / 0..4 (thorough)", "three memory layouts of the proof list", "all 64-bit field values, opaque strings of any length"],
                 outside=["proofs deeper than 4"], assumptions=["sha3 is an uninterpreted function: equality of digests is decided by equality of preimage bytes", "address.Module is an uninterpreted injective function"]),
